@@ -468,6 +468,11 @@ func NewFunctionEnvironment(fn Function, current *Environment) (*Environment, bo
 	return env, sameFunction
 }
 
+// HasName tells whether Name() is not empty (a function frame), without printing the function.
+func (e *Environment) HasName() bool {
+	return e.function != nil
+}
+
 // Frame/stack name.
 func (e *Environment) Name() string {
 	if e.function == nil {
